@@ -1642,6 +1642,9 @@ def case_file(rng, ctx):
     ctx.state(["file", len(model), sorted(len(b) for b in model.values()), do_compress])
 
     def write_read(obj, what):
+        if ctx.index % 4 == 1:
+            from vf.core import through_disk
+            return through_disk(ctx, obj, pdbx.BinaryCIFFile, True, ".bcif", as_pathlib=ctx.index % 8 == 1)
         bio = io.BytesIO()
         ctx.op("BinaryCIFFile.write")
         obj.write(bio)
